@@ -345,6 +345,24 @@ def bench_rules(rep, bmod, bmeth):
         rep.violate('C11.bench', bmod, s, 'start', 'bench start must return the circuit', node=s)
 
 
+def undecided_changes(rep, repo):
+    """C11 is a partial check: the bodies of the transformer methods are decided only in the named structural respects. A method
+    whose normal form differs from the reference (so it really computes something else, or is written in a way the normal form
+    does not see through) and on which no rule fired is *not decided* by this check: exit 2, never a pass."""
+    und = []
+    for mname in ('verilog', 'bench'):
+        res = repo.equiv_full.get(mname)
+        if not res:
+            continue
+        for q in res.get('different', []) + res.get('new', []):
+            if q in res.get('absorbed_helpers', []) or q in ('parse', 'load'):
+                continue
+            und.append(f'{mname}.{q}')
+    if und and not rep.violations:
+        raise ModelError('C11 decides only structural necessary conditions; the following function(s) differ from the confirmed reference beyond the normal form '
+                         f'and none of the decided rules is affected: {", ".join(sorted(und))} - the change is not decided by this check')
+
+
 def depends(rep, repo):
     """"Once parsed and its library cells resolved": resolution is Circuit.resolve_tlib_cells -> substitute; its rules
     (the k-th instance pin meets the k-th implementation port, every node_map read is defined, designated-cell handling) are
@@ -353,6 +371,7 @@ def depends(rep, repo):
     cmod = repo.mod('circuit')
     c10.resolve_rules(rep, cmod)
     c10.substitute_rules(rep, repo, cmod)
+    undecided_changes(rep, repo)
 
 
 def thorough(rep, repo):
